@@ -27,8 +27,10 @@ CLAIMED = {
              ref="DESIGN.md 4 (C16), 1 (single-task claims)", note="Trusted: the simulated allocator behaves like a conforming allocator (recycling, no zeroing); the reference model is std::deque/std::vector; ASan on the same histories. -DNDEBUG like the shipped library.", tech=TECH_SEQ),
  "C17": dict(text="Single-task simulated runs: seeded histories over keys 0..7 (LRU set/map: put, touch, touch_if_exists, get, get_touch, erase, erase_if_exists, exists, pop, clear, absent keys on purpose, final drain; splay set/multiset with int and heap-owning keys: insert, erase, erase(node), exists, find, clear-then-continue, traversal, operations on the empty tree) executed against the real containers inside the simulator's allocator environment (seeded recycling, poisoning with quarantine, canaries) and key-lifetime ledger; oracles: recency-list model incl. std::range_error exactly for absent keys and exact pop order, std::set/std::multiset model (returns, size, in-order sequence, find neighbours), check() for the set variant, live nodes == stored keys after every step, allocator ledger clean at the end, ASan. No schedule in this property: the simulator-owned dimension is the allocator/lifetime environment. Sampling, not proof.",
              ref="DESIGN.md 4 (C17), 1 (single-task claims)", note="Trusted: the simulated allocator behaves like a conforming allocator; reference models are a std::list recency list and std::set/std::multiset; ASan on the same histories. -DNDEBUG like the shipped library.", tech=TECH_SEQ),
+ "C02": dict(text="Single-task simulated runs: seeded histories (insert value / with hint / range, erase by key, erase_one, erase(iterator) inside duplicate runs and at leaf borders, clear, copy construction, assignment, swap, bulk_load of sorted ranges of sizes around 0, 1 and node-capacity multiples, construction and destruction of up to three trees) over 10 instantiations (set/multiset/map/multimap; leaf x inner slots 4x4, 4x7, 5x4, 6x5, 8x8, 16x4, 4x5, 5x7, 7x4; linear and binary in-node search; less/greater; int and heap-owning keys and mapped values) executed inside the simulator's allocator environment (seeded recycling, poisoning with quarantine, canaries); oracles after every mutating call on every live tree: verify() (die switched to exceptions), allocated blocks == leaves + inner nodes, no double destroy / use of a destroyed element, live elements >= stored; at the end no block and no element alive, released blocks untouched; ASan. No schedule in this property: the simulator-owned dimension is the allocator/lifetime environment. Sampling, not proof.",
+             ref="DESIGN.md 4 (C02), 1 (single-task claims)", note="Trusted: BTree::verify() as the statement's self-check; the simulated allocator behaves like a conforming allocator; ASan on the same histories. -DNDEBUG like the shipped library.", tech=TECH_SEQ),
 }
-PENDING = ["C02"]
+PENDING = []
 NA = {
  "C01":"pure function of a single-threaded call history: no schedule, clock, fault or environment seam in the statement (model-based testing, not simulation) - DESIGN.md 5",
  "C03":"sequential string sorts are pure functions of (strings, memory limit); nothing for a scheduler or fault injector to own - DESIGN.md 5",
